@@ -558,28 +558,9 @@ func sortedMapBody(c *mc.Ctx) {
 	m := ds.NewSortedMap[string, int]()
 	ref := map[string]int{}
 	dels := false
-	for step := 0; step < depth; step++ {
-		op := c.Choose(3)
-		if op == 0 {
-			break
-		}
-		key := keys[c.Choose(len(keys))]
-		if op == 1 {
-			c.Op("Set(%q,%d)", key, step)
-			_, had := ref[key]
-			if isNew := m.Set(key, step); isNew == had {
-				c.Failf("Set(%q) new=%v but key present=%v", key, isNew, had)
-			}
-			ref[key] = step
-		} else {
-			c.Op("Delete(%q)", key)
-			_, had := ref[key]
-			if rm := m.Delete(key); rm != had {
-				c.Failf("Delete(%q)=%v want %v", key, rm, had)
-			}
-			delete(ref, key)
-			dels = true
-		}
+	// the map sorts lazily: whether the contents are read between two updates is part of the
+	// sequence (observe is an operation of its own; Set / Delete report through their results)
+	observe := func() {
 		var ks []string
 		for q := range ref {
 			ks = append(ks, q)
@@ -607,8 +588,41 @@ func sortedMapBody(c *mc.Ctx) {
 			}
 		}
 	}
+	for step := 0; step < depth; step++ {
+		op := c.Choose(4)
+		if op == 0 {
+			break
+		}
+		if op == 3 {
+			c.Op("observe")
+			observe()
+			continue
+		}
+		key := keys[c.Choose(len(keys))]
+		if op == 1 {
+			c.Op("Set(%q,%d)", key, step)
+			_, had := ref[key]
+			if isNew := m.Set(key, step); isNew == had {
+				c.Failf("Set(%q) new=%v but key present=%v", key, isNew, had)
+			}
+			ref[key] = step
+		} else {
+			c.Op("Delete(%q)", key)
+			_, had := ref[key]
+			if rm := m.Delete(key); rm != had {
+				c.Failf("Delete(%q)=%v want %v", key, rm, had)
+			}
+			delete(ref, key)
+			dels = true
+		}
+		if m.Size() != len(ref) {
+			c.Failf("Size()=%d want %d", m.Size(), len(ref))
+		}
+	}
+	c.Op("observe (final)")
+	observe()
 	if dels && len(ref) > 0 {
-		c.Nontrivial(fmt.Sprint(ref, c.Ops()[len(c.Ops())-1]))
+		c.Nontrivial(fmt.Sprint(ref, c.Ops()[len(c.Ops())-2]))
 	}
 }
 
